@@ -243,6 +243,328 @@ func runC12(c *eng.Ctx) {
 	}
 	c.Floor(10)
 
+	// ---- R12.5 membership bookkeeping: every join / leave / stream deletion updates members, subscriber heaps and assignments together
+	c.Rule("R12.5", "K2")
+	isBuiltin := func(name string, argv ...eng.VM) func(ssa.Instruction) bool {
+		return func(in ssa.Instruction) bool {
+			call, ok := in.(*ssa.Call)
+			if !ok {
+				return false
+			}
+			b, ok := call.Call.Value.(*ssa.Builtin)
+			if !ok || b.Name() != name {
+				return false
+			}
+			for i, m := range argv {
+				if m != nil && (i >= len(call.Call.Args) || !m(call.Call.Args[i])) {
+					return false
+				}
+			}
+			return true
+		}
+	}
+	succ := func(nres int) func(ssa.Instruction) bool {
+		return func(in ssa.Instruction) bool {
+			r, ok := in.(*ssa.Return)
+			if !ok {
+				return false
+			}
+			rv := eng.RetVals(r)
+			return len(rv) == nres && (nres == 0 || eng.NilConst(rv[nres-1]))
+		}
+	}
+	// mustPass: no path from the start points to a target avoids an instruction satisfying pass
+	mustPass := func(fn *ssa.Function, fromEdges []eng.Edge, entry bool, target, pass func(ssa.Instruction) bool) *eng.Witness {
+		q := &eng.PathQuery{Fn: fn, FromEntry: entry, FromEdges: fromEdges, Target: target, CutInstr: pass}
+		return q.Find()
+	}
+	exists := func(fn *ssa.Function, pred func(ssa.Instruction) bool) bool {
+		found := false
+		eng.Instrs(fn, func(in ssa.Instruction) {
+			if pred(in) {
+				found = true
+			}
+		})
+		return found
+	}
+	membersF := p.Field("server", "consumerGroup", "members")
+	subsF := p.Field("server", "consumerGroup", "subscribers")
+	if fn := c.Fn("server.(*consumerGroup).AddMember"); fn != nil {
+		w := mustPass(fn, nil, true, succ(1), eng.IsCallTo("server.consumerGroup.addMember"))
+		c.Check(w == nil, "a join that is accepted adds the member", p.Pos(fn.Pos()), "every successful return of AddMember passes addMember", "AddMember can report success without adding the member (path "+w.String()+")")
+	}
+	if fn := c.Fn("server.(*consumerGroup).addMember"); fn != nil {
+		var newCons ssa.Value
+		eng.Instrs(fn, func(in ssa.Instruction) {
+			if mu, ok := in.(*ssa.MapUpdate); ok && eng.Load(membersF, nil)(mu.Map) && eng.Param("consumerID")(mu.Key) {
+				newCons = mu.Value
+			}
+		})
+		okAdd := false
+		for _, ac := range eng.CallsIn(fn, "server.consumerGroup.addConsumer") {
+			if newCons != nil && ac.Common().Args[1] == newCons {
+				okAdd = true
+			}
+		}
+		w := mustPass(fn, nil, true, func(in ssa.Instruction) bool { _, ok := in.(*ssa.Return); return ok }, eng.IsCallTo("server.consumerGroup.addConsumer"))
+		c.Check(newCons != nil && okAdd && w == nil, "a new member is registered and enters the subscriber heaps", p.Pos(fn.Pos()), "c.members[consumerID] = cons; addConsumer(cons)", "addMember does not both store the consumer under its id and add that same consumer to the subscriber heaps: it is a member without assignments or holds assignments without being a member")
+	}
+	if fn := c.Fn("server.(*consumerGroup).addConsumer$1"); fn != nil {
+		anyRet := func(in ssa.Instruction) bool { _, ok := in.(*ssa.Return); return ok }
+		w1 := mustPass(fn, nil, true, anyRet, eng.IsCallTo("container/heap.Push"))
+		w2 := mustPass(fn, nil, true, anyRet, eng.IsCallTo("server.consumerGroup.balanceAssignmentsForStream"))
+		okPush := false
+		for _, hp := range eng.CallsIn(fn, "container/heap.Push") {
+			a := hp.Common().Args
+			if len(a) == 2 {
+				if freeVarNamed("cons")(a[1]) {
+					okPush = true
+				}
+			}
+		}
+		// a heap created for a first subscriber is stored
+		absent := eng.BoolEdges(fn, eng.AnyV, false)
+		okStore := false
+		eng.Instrs(fn, func(in ssa.Instruction) {
+			if mu, ok := in.(*ssa.MapUpdate); ok && eng.Load(subsF, nil)(mu.Map) && eng.Param("stream")(mu.Key) {
+				okStore = true
+			}
+		})
+		_ = absent
+		c.Check(w1 == nil && w2 == nil && okPush && okStore, "a joining consumer enters the heap of each of its streams and the stream is rebalanced", p.Pos(fn.Pos()), "heap.Push(subscribers, cons) and balanceAssignmentsForStream(stream) on every path; a new heap is stored in c.subscribers", "for some stream of a joining consumer the heap push, the rebalance or the registration of a new heap is skipped: its partitions stay with the old members or with nobody")
+		// rebalance after the push
+		for _, hp := range eng.CallsIn(fn, "container/heap.Push") {
+			q := &eng.PathQuery{Fn: fn, FromAfter: []ssa.Instruction{hp.(ssa.Instruction)}, Target: anyRet, CutInstr: eng.IsCallTo("server.consumerGroup.balanceAssignmentsForStream")}
+			w := q.Find()
+			c.Check(w == nil, "rebalance follows the push", c.Pos(hp.(ssa.Instruction)), "balanceAssignmentsForStream after heap.Push", "the stream is rebalanced before the new consumer is in its heap (path "+w.String()+")")
+		}
+	}
+	if fn := c.Fn("server.(*consumerGroup).removeConsumer$1"); fn != nil {
+		rm := eng.CallsIn(fn, "container/heap.Remove")
+		same := eng.CmpEdges(fn, freeVarNamed("cons"), eng.AnyV, eng.EQ)
+		ok := len(rm) == 1 && len(same) > 0
+		if ok {
+			g, _ := eng.GuardedBy(fn, rm[0].(ssa.Instruction), same)
+			ok = g
+		}
+		c.Check(ok, "a leaving consumer (and only it) is taken out of each heap", p.Pos(fn.Pos()), "heap.Remove(subscribers, i) exactly where cons == sub", "removeConsumer does not remove exactly the leaving consumer from the stream's heap: it keeps receiving partitions, or another member loses its place")
+		bal := eng.CallsIn(fn, "server.consumerGroup.balanceAssignmentsForStream")
+		okBal := len(bal) == 1
+		if okBal && len(rm) == 1 {
+			// the rebalance happens after the removal
+			q := &eng.PathQuery{Fn: fn, FromAfter: []ssa.Instruction{bal[0].(ssa.Instruction)}, Target: func(in ssa.Instruction) bool { return in == rm[0].(ssa.Instruction) }}
+			okBal = q.Find() == nil
+		}
+		c.Check(okBal, "the stream is rebalanced after the consumer left its heap", p.Pos(fn.Pos()), "balanceAssignmentsForStream(stream) after heap.Remove", "the partitions of a leaving consumer are not redistributed (or are redistributed while it is still in the heap)")
+	}
+	if fn := c.Fn("server.(*consumerGroup).RemoveMember"); fn != nil {
+		w1 := mustPass(fn, nil, true, succ(2), eng.IsCallTo("server.consumerGroup.removeConsumer"))
+		w2 := mustPass(fn, nil, true, succ(2), isBuiltin("delete", eng.Load(membersF, nil), eng.Param("consumerID")))
+		c.Check(w1 == nil && w2 == nil, "a leave that is accepted removes the member and its heap entries", p.Pos(fn.Pos()), "removeConsumer(consumer) and delete(c.members, consumerID) before every successful return", "RemoveMember can report success while the consumer stays in c.members or in the subscriber heaps")
+		// the consumer passed to removeConsumer is the member looked up under consumerID
+		okArg := false
+		for _, rc := range eng.CallsIn(fn, "server.consumerGroup.removeConsumer") {
+			if lk, ok := eng.Strip(rc.Common().Args[1]).(*ssa.Extract); ok {
+				if l, ok := lk.Tuple.(*ssa.Lookup); ok && eng.Load(membersF, nil)(l.X) && eng.Param("consumerID")(l.Index) {
+					okArg = true
+				}
+			}
+		}
+		c.Check(okArg, "the leaving member is the one registered under the id", p.Pos(fn.Pos()), "removeConsumer(c.members[consumerID])", "RemoveMember removes a consumer other than c.members[consumerID] from the heaps")
+	}
+	if fn := c.Fn("server.(*consumerGroup).StreamDeleted"); fn != nil {
+		okSub := exists(fn, isBuiltin("delete", eng.LoadNamed("streams", nil), eng.Param("stream"))) && len(eng.CallsIn(fn, "server.consumer.removeStreamAssignments")) == 1
+		found := eng.BoolEdges(fn, eng.AnyV, true)
+		_ = found
+		w := mustPass(fn, nil, true, func(in ssa.Instruction) bool { return eng.IsCallTo("server.rangeStreamsOrdered")(in) }, isBuiltin("delete", eng.Load(subsF, nil), eng.Param("stream")))
+		okReb := false
+		for _, rs := range eng.CallsIn(fn, "server.rangeStreamsOrdered") {
+			if mc, ok := rs.Common().Args[1].(*ssa.MakeClosure); ok {
+				if len(eng.CallsIn(mc.Fn.(*ssa.Function), "server.consumerGroup.balanceAssignmentsForStream")) == 1 {
+					okReb = true
+				}
+			}
+		}
+		c.Check(okSub && w == nil && okReb, "a deleted stream leaves subscriptions, assignments and heaps, and the other streams are rebalanced", p.Pos(fn.Pos()), "per subscriber: delete(streams, stream), removeStreamAssignments(stream); delete(c.subscribers, stream); then rebalance the affected streams in sorted order", "StreamDeleted leaves the deleted stream in a subscription set, an assignment map or the subscriber table, or does not rebalance the streams whose load counts changed")
+	}
+	// presence tests: what is done for a missing entry and for an existing one must not be swapped
+	commaOk := func(mapM eng.VM) eng.VM {
+		return func(v ssa.Value) bool {
+			ex, ok := v.(*ssa.Extract)
+			if !ok || ex.Index != 1 {
+				return false
+			}
+			l, ok := ex.Tuple.(*ssa.Lookup)
+			return ok && l.CommaOk && mapM(l.X)
+		}
+	}
+	guarded := func(fn *ssa.Function, pred func(ssa.Instruction) bool, edges []eng.Edge) (bool, int) {
+		ok, n := len(edges) > 0, 0
+		eng.Instrs(fn, func(in ssa.Instruction) {
+			if pred(in) {
+				n++
+				if g, _ := eng.GuardedBy(fn, in, edges); !g {
+					ok = false
+				}
+			}
+		})
+		return ok, n
+	}
+	if fn := c.FnQuiet("server.(*consumerGroup).addConsumer$1"); fn != nil {
+		absent := eng.BoolEdges(fn, commaOk(eng.Load(subsF, nil)), false)
+		g, n := guarded(fn, func(in ssa.Instruction) bool {
+			mu, ok := in.(*ssa.MapUpdate)
+			return ok && eng.Load(subsF, nil)(mu.Map)
+		}, absent)
+		c.Check(g && n == 1, "a stream's heap is created only when it has none", p.Pos(fn.Pos()), "c.subscribers[stream] = &consumerHeap{} only on !ok", "addConsumer replaces the existing heap of a stream with an empty one: the consumers already subscribed lose their assignments at the next rebalance")
+	}
+	if fn := c.FnQuiet("server.(*consumerGroup).removeConsumer$1"); fn != nil {
+		had := eng.BoolEdges(fn, commaOk(eng.LoadNamed("assignments", nil)), true)
+		g, n := guarded(fn, eng.IsCallTo("server.consumerGroup.balanceAssignmentsForStream"), had)
+		present := eng.BoolEdges(fn, commaOk(eng.Load(subsF, nil)), true)
+		g2, n2 := guarded(fn, eng.IsCallTo("container/heap.Remove"), present)
+		c.Check(g && n == 1 && g2 && n2 == 1, "a leave touches only streams that have a heap and rebalances those the consumer held partitions of", p.Pos(fn.Pos()), "heap.Remove on ok; rebalance when cons.assignments[stream] exists", "removeConsumer's presence tests are inverted: the partitions a leaving consumer held are not redistributed")
+	}
+	if fn := c.FnQuiet("server.(*consumerGroup).RemoveMember"); fn != nil {
+		isMember := eng.BoolEdges(fn, commaOk(eng.Load(membersF, nil)), true)
+		g, n := guarded(fn, eng.IsCallTo("server.consumerGroup.removeConsumer"), isMember)
+		c.Check(g && n == 1, "only a registered member is removed", p.Pos(fn.Pos()), "removeConsumer on ok; ErrConsumerNotMember otherwise", "RemoveMember's membership test is inverted")
+	}
+	if fn := c.FnQuiet("server.(*consumerGroup).StreamDeleted"); fn != nil {
+		has := eng.BoolEdges(fn, commaOk(eng.Load(subsF, nil)), true)
+		g, n := guarded(fn, isBuiltin("delete", eng.Load(subsF, nil), eng.Param("stream")), has)
+		c.Check(g && n == 1, "a stream deletion is applied when the group subscribes to the stream", p.Pos(fn.Pos()), "the early return is taken only when c.subscribers has no entry", "StreamDeleted returns early although the group subscribes to the stream (or proceeds without an entry)")
+	}
+	if fn := c.FnQuiet("server.(*consumerGroup).balanceAssignmentsForStream"); fn != nil {
+		has := eng.BoolEdges(fn, commaOk(eng.Load(subsF, nil)), true)
+		g, n := guarded(fn, eng.IsCallTo("server.consumerGroup.assignPartition"), has)
+		some := eng.CmpEdges(fn, eng.Len(eng.AnyV), eng.IntConst(0), eng.NE)
+		g2, _ := guarded(fn, eng.IsCallTo("server.consumerGroup.assignPartition"), some)
+		c.Check(g && n == 1 && g2, "a stream with subscribers is balanced", p.Pos(fn.Pos()), "partitions are assigned when the heap exists and is not empty", "balanceAssignmentsForStream's early return is inverted: streams with subscribers are never balanced")
+	}
+	if fn := c.FnQuiet("server.(*consumer).assignPartition"); fn != nil {
+		// the previous assignments of the stream are kept: the slice appended to is the looked-up one whenever it exists
+		absent := eng.BoolEdges(fn, commaOk(eng.LoadNamed("assignments", nil)), false)
+		ok := false
+		eng.Instrs(fn, func(in ssa.Instruction) {
+			call, isC := in.(*ssa.Call)
+			if !isC {
+				return
+			}
+			if b, isB := call.Call.Value.(*ssa.Builtin); !isB || b.Name() != "append" {
+				return
+			}
+			base := call.Call.Args[0]
+			isLookup := func(v ssa.Value) bool {
+				ex, isE := v.(*ssa.Extract)
+				if !isE || ex.Index != 0 {
+					return false
+				}
+				_, isL := ex.Tuple.(*ssa.Lookup)
+				return isL
+			}
+			switch x := base.(type) {
+			case *ssa.Phi:
+				ok = true
+				for i, e := range x.Edges {
+					if isLookup(e) {
+						continue
+					}
+					// a fresh slice may replace the looked-up one only over an edge taken when the entry is absent
+					pred := x.Block().Preds[i]
+					fresh := false
+					for _, ae := range absent {
+						if ae.From == pred && ae.To() == x.Block() {
+							fresh = true
+						}
+					}
+					if !fresh && len(pred.Instrs) > 0 {
+						if g, _ := eng.GuardedBy(fn, pred.Instrs[len(pred.Instrs)-1], absent); g && len(absent) > 0 {
+							fresh = true
+						}
+					}
+					if !fresh {
+						ok = false
+					}
+				}
+			default:
+				ok = isLookup(base) || eng.LoadNamed("assignments", nil)(base)
+			}
+		})
+		c.Check(ok, "a consumer's earlier partitions of a stream are kept when one more is assigned", p.Pos(fn.Pos()), "append to the existing slice; a fresh slice only when the stream has none", "consumer.assignPartition starts a fresh slice although the stream already has assignments: each consumer ends up with only its last partition")
+	}
+	if fn := c.FnQuiet("server.(*consumer).removeStreamAssignments"); fn != nil {
+		c.Check(exists(fn, isBuiltin("delete", eng.LoadNamed("assignments", nil), eng.Param("stream"))), "a reset drops the stream's assignment list", p.Pos(fn.Pos()), "delete(c.assignments, stream)", "removeStreamAssignments keeps the old list: the next rebalance appends to it and partitions are held twice")
+	}
+	if fn := c.FnQuiet("server.(*consumerGroup).RemoveMember"); fn != nil {
+		ok := false
+		for _, r := range eng.Returns(fn) {
+			rv := eng.RetVals(r)
+			if len(rv) == 2 && eng.NilConst(rv[1]) {
+				ok = eng.Bin(token.EQL, eng.Len(eng.Load(membersF, nil)), eng.IntConst(0))(rv[0])
+			}
+		}
+		c.Check(ok, "the group is reported empty exactly when no member is left", p.Pos(fn.Pos()), "return len(c.members) == 0, nil", "RemoveMember's last-member result is not `len(c.members) == 0`: the caller deletes a group that still has members, or keeps empty groups")
+	}
+	if fn := c.FnQuiet("server.(*consumerGroup).GetAssignments"); fn != nil {
+		isMember := eng.BoolEdges(fn, commaOk(eng.Load(membersF, nil)), true)
+		okMem := false
+		for _, r := range eng.Returns(fn) {
+			rv := eng.RetVals(r)
+			if len(rv) == 3 && eng.NilConst(rv[2]) {
+				g, _ := eng.GuardedBy(fn, r, isMember)
+				okMem = g && len(isMember) > 0
+			}
+		}
+		okCopy := exists(fn, isBuiltin("copy", nil, nil))
+		c.Check(okMem && okCopy, "assignments are served to members, as a filled copy", p.Pos(fn.Pos()), "success only when consumerID is a member; copy(dst, partitions) per stream", "GetAssignments serves a non-member, or hands out freshly made slices without copying the partitions into them (every partition reads as 0)")
+	}
+	for _, k := range []string{"server.(*consumerGroup).assignPartition", "server.(*consumerGroup).StreamDeleted$1"} {
+		if fn := c.FnQuiet(k); fn != nil {
+			has := eng.BoolEdges(fn, commaOk(eng.Load(subsF, nil)), true)
+			g, n := guarded(fn, eng.IsCallTo("container/heap.Init"), has)
+			c.Check(g && n >= 1, "heap invariants are restored only for heaps that exist in "+fn.Name(), p.Pos(fn.Pos()), "heap.Init(subscribers) on ok", "heap.Init is called for a missing heap (nil) or skipped for the existing ones")
+		}
+	}
+	if fn := c.FnQuiet("server.(*consumerGroup).SetCoordinator"); fn != nil {
+		cf := p.Field("server", "consumerGroup", "coordinator")
+		ok := false
+		for _, st := range eng.FieldStores(fn, func(fa *ssa.FieldAddr) bool { return fieldIs(fa, cf) }) {
+			if eng.Param("coordinator")(st.Val) {
+				ok = true
+			}
+		}
+		c.Check(ok, "a coordinator change is recorded", p.Pos(fn.Pos()), "c.coordinator = coordinator", "SetCoordinator does not record the new coordinator: assignments keep being served by the old one")
+	}
+	// every accepted operation advances the group epoch to the operation's epoch
+	for _, k := range []string{"AddMember", "RemoveMember", "StreamDeleted", "SetCoordinator"} {
+		fn := c.FnQuiet("server.(*consumerGroup)." + k)
+		if fn == nil {
+			continue
+		}
+		isEpochStore := func(in ssa.Instruction) bool {
+			st, ok := in.(*ssa.Store)
+			if !ok {
+				return false
+			}
+			fa, ok := st.Addr.(*ssa.FieldAddr)
+			return ok && fieldIs(fa, ge) && eng.Param("epoch")(st.Val)
+		}
+		var w *eng.Witness
+		switch k {
+		case "StreamDeleted":
+			// the no-subscription early return changes nothing and may keep the epoch
+			has := eng.BoolEdges(fn, commaOk(eng.Load(subsF, nil)), true)
+			w = mustPass(fn, has, false, succ(1), isEpochStore)
+		case "RemoveMember":
+			w = mustPass(fn, nil, true, succ(2), isEpochStore)
+		default:
+			w = mustPass(fn, nil, true, succ(1), isEpochStore)
+		}
+		c.Check(w == nil, k+" advances the group epoch", p.Pos(fn.Pos()), "c.epoch = epoch before every successful return that changed the group", k+" can change the group and keep the old epoch (path "+w.String()+"): two different assignments exist for one group epoch")
+	}
+	c.Floor(25)
+
 	// ---- R12.6 acquire/release pairing
 	c.Rule("R12.6", "K2")
 	ruleLockPairing(c, "server/groups.go")
@@ -277,4 +599,20 @@ func runC12(c *eng.Ctx) {
 		c.Check(sd, "stream deletion reaches the groups", p.Pos(fn.Pos()), "StreamDeleted is invoked for every group", "removeStream no longer tells consumer groups about the deleted stream: assignments keep pointing at it")
 	}
 	c.Floor(1)
+}
+
+// freeVarNamed matches a variable captured from the enclosing function: Strip resolves a single-store captured cell to the
+// value stored (the enclosing function's parameter); otherwise the free variable itself is matched.
+func freeVarNamed(name string) eng.VM {
+	return func(v ssa.Value) bool {
+		if eng.Param(name)(v) {
+			return true
+		}
+		v = eng.Strip(v)
+		if u, ok := v.(*ssa.UnOp); ok && u.Op == token.MUL {
+			v = u.X
+		}
+		fv, ok := v.(*ssa.FreeVar)
+		return ok && fv.Name() == name
+	}
 }
